@@ -33,8 +33,18 @@ def main():
     out = {"effects": effects}
     workroot = tempfile.mkdtemp(prefix="reduverif-c12-")
     script_path = os.path.join(workroot, "user_script.py")
-    with open(script_path, "w", encoding="utf-8") as f:
-        f.write(cfg["script"])
+    enc = cfg.get("encoding")
+    if enc == "latin-1-cookie":
+        # legal Python source that is not UTF-8: the text Python sees is the latin-1 decoding (the cookie line is a comment)
+        cfg["script"] = "# -*- coding: latin-1 -*-\n" + cfg["script"]
+        with open(script_path, "wb") as f:
+            f.write(cfg["script"].encode("latin-1"))
+    elif enc == "utf-8-bom":
+        with open(script_path, "wb") as f:
+            f.write(b"\xef\xbb\xbf" + cfg["script"].encode("utf-8"))
+    else:
+        with open(script_path, "w", encoding="utf-8") as f:
+            f.write(cfg["script"])
     # independent expectation computed before any patching
     try:
         program = parse(cfg["script"])
@@ -56,6 +66,11 @@ def main():
                         bool(k.get("check"))])
         argv = list(cmd) if isinstance(cmd, (list, tuple)) else [cmd]
         mode = "ok"
+        if faults.get("pio") == "only-platformio":
+            # an installation whose only executable is called `platformio`
+            if argv and argv[0] == "pio":
+                raise FileNotFoundError(2, "No such file or directory", "pio")
+            return subprocess.CompletedProcess(cmd, 0)
         if argv[:2] == ["pio", "--version"]:
             mode = faults.get("pio", "ok")
         elif argv == ["pio", "run"]:
@@ -99,6 +114,16 @@ def main():
         effects.append(["mkdir", str(self)])
         return real_mkdir(self, *a, **k)
 
+    real_which = shutil.which
+
+    def fake_which(name, *a, **k):
+        if name == "pio":
+            return None if faults.get("pio") in ("missing", "only-platformio") else "/usr/local/bin/pio"
+        if name == "platformio":
+            return None if faults.get("pio") == "missing" else "/usr/local/bin/platformio"
+        return real_which(name, *a, **k)
+
+    shutil.which = fake_which
     subprocess.run = fake_run
     tempfile.mkdtemp = fake_mkdtemp
     pathlib.Path.write_text = fake_write_text
